@@ -12,7 +12,7 @@ open Verif
     refused calls consume none -/
 theorem ids_sequential (cs : List Call) :
     issuedIds (Sess.init .client) cs
-      = (List.range (issuedIds (Sess.init .client) cs).length).map (fun i => Facts.firstMessageId + (i : Int)) :=
+      = (List.range (issuedIds (Sess.init .client) cs).length).map (fun (i : Nat) => Facts.firstMessageId + (i : Int)) :=
   Proofs.ids_sequential cs
 
 theorem first_id_positive : 0 < Facts.firstMessageId := by decide
@@ -58,6 +58,6 @@ theorem reject_closes (d : Nat) (s : Sess) (chunk : Bytes) (ms : List Msg) (rest
 example : issuedIds (Sess.init .client)
     [.extended [49] none [], .unbind, .extended [49] none [], .search [] 0 0 0 0 false none [] []] = [1] := by decide
 example : issuedIds (Sess.init .client)
-    [.search [] 0 0 0 0 false none [] [], .extended [49] none [], .bind [] (.simple []) [], .extended [50] none []] = [1, 2] := by decide
+    [.search [] 0 0 0 0 false none [] [], .extended [49] none [], .bind [] (.simple []) [], .extended [50] none []] = [1, 2, 3] := by decide
 
 end Verif.C09
